@@ -487,6 +487,11 @@ def commandObs (st : St) (c : Cmd) : St × Verdict :=
       | _, _ => true
     let okPred : String → Bool := fun g => g.startsWith okStr && digestOk g
     if cl == "before" ∨ cl.startsWith "beforebuf:" then (st, .pred (fun g => g.startsWith "err:closed file=0") "err:closed file=0")
+    else if cl.startsWith "engine:" then
+      -- the channel is closed from inside an engine call of the vector merge: the merge either notices
+      -- (nothing at the path) or completes with the reference content; either way no engine index survives
+      (st', .pred (fun g => (g.startsWith "err:closed file=0" || okPred g) && kvOf g "englive" == some "0")
+            ("(err:closed file=0 or " ++ okStr ++ ") and englive=0"))
     else if cl.startsWith "report:" then
       (st', .pred (fun g => g.startsWith "err:closed file=0" || okPred g) ("err:closed file=0 or " ++ okStr ++ " with the reference content digest"))
     else if (c.get? "engfail").isSome then
